@@ -10,6 +10,7 @@ import (
 	"os"
 	"os/exec"
 	"runtime"
+	"runtime/debug"
 	"strconv"
 	"strings"
 	"sync"
@@ -110,9 +111,50 @@ func c08Seq(c *evid.Ctx, seed int64) {
 	var calls []string
 	replay := func() map[string]any { return map[string]any{"seed": seed, "real_fs": real, "calls": tail(calls, 30)} }
 	lastLog := "none"
+	// values handed out by Get are kept and compared again later: a returned value must
+	// stay what it was (and stay readable) whatever the store does afterwards
+	type heldVal struct {
+		key  string
+		got  []byte
+		copy []byte
+	}
+	var held []heldVal
+	checkHeld := func(when string) bool {
+		old := debug.SetPanicOnFault(true)
+		defer debug.SetPanicOnFault(old)
+		for _, h := range held {
+			bad := ""
+			func() {
+				defer func() {
+					if r := recover(); r != nil {
+						bad = fmt.Sprintf("reading it faults: %v", r)
+					}
+				}()
+				if !bytes.Equal(h.got, h.copy) {
+					bad = "its bytes changed"
+				}
+			}()
+			c.Count("retained_values_rechecked", 1)
+			if bad != "" {
+				c.Violation("C08:returned-value-not-stable:"+when, fmt.Sprintf("a value returned earlier by Get(%q) (%d bytes) is no longer what was returned (%s): %s", short8(h.key), len(h.copy), when, bad), replay())
+				held = nil
+				return false
+			}
+		}
+		if len(held) > 24 {
+			held = held[len(held)-24:]
+		}
+		return true
+	}
 	checkAll := func(when string) bool {
+		if !checkHeld(when) {
+			return false
+		}
 		for k, v := range sm.M {
 			got, err := st.w.Get([]byte(k))
+			if err == nil && len(got) > 0 {
+				held = append(held, heldVal{k, got, append([]byte{}, got...)})
+			}
 			if err != nil || !bytes.Equal(got, v) {
 				c.Violation("C08:stable-value:"+when, fmt.Sprintf("%s: Get(%q) = %d bytes / err %v, latest successful Set stored %d bytes (after log op %s)", when, short8(k), len(got), err, len(v), lastLog), replay())
 				return false
@@ -183,6 +225,9 @@ func c08Seq(c *evid.Ctx, seed int64) {
 			c.Distinct("op_contexts", "getu64-non8")
 		case x < 55: // reopen
 			st.close()
+			if !checkHeld("after-close") {
+				return
+			}
 			if err := st.open(); err != nil {
 				c.Violation("C08:reopen", err.Error(), replay())
 				return
